@@ -12,6 +12,7 @@ import (
 	"verifharness/props/c12"
 	"verifharness/props/c16"
 	"verifharness/props/c20"
+	"verifharness/props/pipe"
 	"verifharness/props/ws"
 )
 
@@ -25,6 +26,9 @@ var drivers = map[string]runner{
 	"C15": ws.RunFor("C15"),
 	"C16": c16.Run,
 	"C20": c20.Run,
+	"C05": pipe.RunC05,
+	"C08": pipe.RunC08,
+	"C17": pipe.RunC17,
 }
 
 func main() {
